@@ -6,7 +6,7 @@ sys.path.insert(0, ROOT)
 from props import PROPS
 
 ALL = [f"C{i:02d}" for i in range(1, 21)]
-hooks_commits = subprocess.run("git -C /repo log --format=%H --grep='^verif hooks'", shell=True, capture_output=True, text=True).stdout.split()
+hooks_commits = subprocess.run("git -C /repo log --format=%H --grep='^verif hook'", shell=True, capture_output=True, text=True).stdout.split()
 
 checks = []
 for pid in ALL:
